@@ -73,7 +73,9 @@ size_t gk;
 
 /* ---------------- assumed contracts of callees outside C04 (listed in the evidence) -------------------- */
 void ActivityImpl__register_simcall(struct ActivityImpl* self, struct Simcall* sc)
-    __CPROVER_requires(1) __CPROVER_assigns(g_registered) __CPROVER_ensures(g_registered == __CPROVER_old(g_registered) + 1);
+    __CPROVER_requires(__CPROVER_rw_ok(self, sizeof(*self))) __CPROVER_assigns(g_registered, self->simcalls_.n)
+    __CPROVER_ensures(g_registered == __CPROVER_old(g_registered) + 1 &&
+                      self->simcalls_.n == __CPROVER_old(self->simcalls_.n) + 1);
 
 struct ActorImpl* ActivityImpl__unregister_first_simcall(struct ActivityImpl* self)
     __CPROVER_requires(1) __CPROVER_assigns()
@@ -177,7 +179,23 @@ void MutexAcquisitionImpl__finish(struct MutexAcquisitionImpl* self)
     __CPROVER_ensures((vf_exc == VF_EXC_ABORT) ==
                       (self->__b_ActivityImpl_T_MutexAcquisitionImpl.__b_ActivityImpl.simcalls_.n != 1))
     /*@ finish_needs_exactly_one_waiter */
-    __CPROVER_ensures(g_answered <= __CPROVER_old(g_answered) + 1) /*@ finish_answers_at_most_once */;
+    __CPROVER_ensures(vf_exc == 0 || vf_exc == VF_EXC_ABORT)
+    __CPROVER_ensures(g_answered == __CPROVER_old(g_answered) ||
+                      (vf_exc == 0 && g_answered == __CPROVER_old(g_answered) + 1)) /*@ finish_answers_at_most_once */;
+
+#define SIMCALLS_N(a) ((a)->__b_ActivityImpl_T_MutexAcquisitionImpl.__b_ActivityImpl.simcalls_.n)
+/* wait_for: only the creator may wait, no timeouts; blocks (registers, no answer) unless the issuer already owns */
+void MutexAcquisitionImpl__wait_for(struct MutexAcquisitionImpl* self, struct ActorImpl* issuer, double timeout)
+    __CPROVER_requires(__CPROVER_rw_ok(self, sizeof(*self)) && self->mutex_ == &g_m && IS_ACTOR(self->issuer_) &&
+                       __CPROVER_r_ok(self->issuer_, sizeof(struct ActorImpl)) && vf_exc == 0 && g_registered == 0 &&
+                       g_answered == 0 && SIMCALLS_N(self) == 0)
+    __CPROVER_assigns(vf_exc, g_registered, g_answered, g_answered_actor, SIMCALLS_N(self))
+    __CPROVER_ensures((vf_exc == VF_EXC_ABORT) ==
+                      (g_m.owner_ == NULL || issuer != self->issuer_ || !(timeout < 0.0))) /*@ wait_for_rejects_misuse */
+    __CPROVER_ensures(vf_exc == 0 || vf_exc == VF_EXC_ABORT)
+    __CPROVER_ensures(vf_exc != 0 || g_registered == 1)                   /*@ wait_for_registers_the_waiter */
+    __CPROVER_ensures(g_m.owner_ == self->issuer_ || g_answered == 0)      /*@ wait_for_blocks_while_not_owner */
+    __CPROVER_ensures(g_answered == 0 || g_answered == 1) /*@ wait_for_answers_once */;
 
 #include "gen.c"
 
@@ -230,6 +248,38 @@ void harness(void)
 {
   setup();
   MutexImpl__unlock(&g_m, pick_actor());
+  VF_CANARY_POINT;
+}
+#endif
+#ifdef H_acq_test
+void harness(void)
+{
+  setup();
+  size_t k = nondet_size();
+  __CPROVER_assume(k < QSZ);
+  MutexAcquisitionImpl__test(&g_acq[k], pick_actor());
+  VF_CANARY_POINT;
+}
+#endif
+#ifdef H_acq_finish
+void harness(void)
+{
+  setup();
+  size_t k = nondet_size();
+  __CPROVER_assume(k < QSZ);
+  MutexAcquisitionImpl__finish(&g_acq[k]);
+  VF_CANARY_POINT;
+}
+#endif
+#ifdef H_acq_wait_for
+double nondet_double(void);
+void harness(void)
+{
+  setup();
+  size_t k = nondet_size();
+  __CPROVER_assume(k < QSZ);
+  g_registered = 0;
+  MutexAcquisitionImpl__wait_for(&g_acq[k], pick_actor(), nondet_double());
   VF_CANARY_POINT;
 }
 #endif
